@@ -60,9 +60,14 @@ func H_C06_required(v *V) {
 		p.Find("one").Find("sub").FindOptionByShortName('e'), p.Find("two").FindOptionByShortName('f'),
 	}
 	req := make([]bool, len(ods))
+	// required options may be hidden from the help: they are demanded all the same
+	hideReq := v.Choice(2) == 1
 	for i := range ods {
 		req[i] = v.Choice(2) == 1
 		optOf[i].Required = req[i]
+		if hideReq && req[i] {
+			optOf[i].Hidden = true
+		}
 	}
 	path := v.Choice(4) // 0: none, 1: one, 2: one sub, 3: two
 	active := func(level int) bool {
